@@ -14,6 +14,16 @@ def isUnsignedParse : Src → Bool
   | .parseUint _ => true
   | _ => false
 
+/-- the guard bounds `l`, `h` contain the whole interval `[plo, phi]` -/
+def guardCovers (l h : Option Int) (plo phi : Int) : Bool :=
+  (match l with | none => true | some c => decide (c ≤ plo)) &&
+  (match h with | none => true | some c => decide (phi ≤ c))
+
+theorem guardCovers_pass {l h : Option Int} {plo phi : Int} (hc : guardCovers l h plo phi = true) (z : Int)
+    (h1 : plo ≤ z) (h2 : z ≤ phi) : passB l h z = true := by
+  unfold guardCovers at hc
+  cases l <;> cases h <;> simp [passB] at hc ⊢ <;> omega
+
 /-- the call a string clause makes, and what follows it -/
 def strIntBodyOK (tgt : Ty) (body : Body) : Bool :=
   match tgt.range, tgt.must with
@@ -27,6 +37,12 @@ def strIntBodyOK (tgt : Ty) (body : Body) : Bool :=
     match body with
     | .bind s none ⟨.cast t .v, .fromCall⟩ _ => t == tgt && okSrc s
     | .direct s => okSrc s
+    | .bind s (some g) ⟨.cast t .v, .fromCall⟩ (some ⟨_, .overflow⟩) =>
+      -- a guard after the parse that every value the parse call can return (results, clamped bounds, 0) passes
+      t == tgt && okSrc s &&
+      (match parseRange s, intBounds g with
+       | some (plo, phi), some (l, h) => decide (plo ≤ 0 ∧ 0 ≤ phi) && guardCovers l h plo phi
+       | _, _ => false)
     | _ => false
   | _, _ => false
 
@@ -195,6 +211,20 @@ theorem okSrc_sound (tgt : Ty) (lo hi mlo mhi : Int) (hr : tgt.range = some (lo,
     obtain ⟨P1, _, P3⟩ := ps
     exact str_core tgt lo hi mlo mhi plo phi (isUnsignedParse s) hr hm h3 h1 h2 w (parseCall s w) P1 P3
 
+theorem parseCall_val (s : Src) (plo phi : Int) (hp : parseRange s = some (plo, phi)) (h0 : plo ≤ 0 ∧ 0 ≤ phi)
+    (w : String) : ∃ v, (parseCall s w).val = .i v ∧ plo ≤ v ∧ v ≤ phi := by
+  have ps := parse_spec s plo phi hp w
+  simp only at ps
+  obtain ⟨P1, P2, _⟩ := ps
+  by_cases he : (parseCall s w).err = .ok
+  · obtain ⟨z, _, hz, h1, h2⟩ := P1 he
+    exact ⟨z, hz, h1, h2⟩
+  · obtain ⟨_, hv⟩ := P2 he
+    rcases hv with hv | hv | hv
+    · exact ⟨0, hv, h0.1, h0.2⟩
+    · exact ⟨plo, hv, Int.le_refl _, by omega⟩
+    · exact ⟨phi, hv, by omega, Int.le_refl _⟩
+
 theorem strIntBodyOK_sound (tbl : List Case) (n : Nat) (tgt : Ty) (w : String)
     (hk : strIntBodyOK tgt (lookup tbl tgt (.ty .string)) = true) :
     specStr tgt w (conv goStrconv tbl (n + 1) tgt (.ty .string) (.s w)) = true := by
@@ -219,5 +249,27 @@ theorem strIntBodyOK_sound (tbl : List Case) (n : Nat) (tgt : Ty) (w : String)
       | .direct s, hk =>
         have hs := (okSrc_sound tgt lo hi mlo mhi hr hm s w (by simpa using hk)).2
         cases s <;> first | (simp [parseRange] at hk; done) | simpa [evalBody, parseCall, strOf] using hs
+      | .bind s (some g) ⟨.cast t .v, .fromCall⟩ (some ⟨fe, .overflow⟩), hk =>
+        simp only [Bool.and_eq_true, beq_iff_eq] at hk
+        obtain ⟨⟨rfl, hok⟩, hgd⟩ := hk
+        have hs := (okSrc_sound t lo hi mlo mhi hr hm s w (by simpa using hok)).1
+        cases hp : parseRange s with
+        | none => simp [hp] at hgd
+        | some pr =>
+          obtain ⟨plo, phi⟩ := pr
+          cases hg : intBounds g with
+          | none => simp [hp, hg] at hgd
+          | some lh =>
+            obtain ⟨l, h⟩ := lh
+            simp only [hp, hg, Bool.and_eq_true, decide_eq_true_eq] at hgd
+            obtain ⟨h0, hcov⟩ := hgd
+            obtain ⟨v, hv, hv1, hv2⟩ := parseCall_val s plo phi hp h0 w
+            have hpass := guardCovers_pass hcov v hv1 hv2
+            have hev : evalC (parseCall s w).val g = some true := by
+              rw [hv, intBounds_sound g l h v hg, hpass]
+            cases s <;> first
+              | (simp [parseRange] at hp; done)
+              | (simp only [parseCall, strOf] at hev hs
+                 simpa [evalBody, hev, evalR, errOf, evalE, strOf] using hs)
 
 end FpgoVerif.C02
